@@ -70,7 +70,7 @@ def check_direct(case):
 def stream_cases():
     @st.composite
     def gen(draw):
-        case = draw(sc.session(max_ops=4))
+        case = draw(sc.session(max_ops=4, with_wcap=True))
         mode = draw(st.sampled_from(["none", "none", "key", "pubkey"]))
         if mode != "none":
             nkeys = draw(st.integers(1, 3))
@@ -105,6 +105,18 @@ def check_stream(case):
     return None, info
 
 
+def check_concurrent(case):
+    """Framing of the byte stream produced by several threads / tasks writing to one transport."""
+    from .. import conc
+    r = conc.run_concurrent(case, case.get("sched") or (), trace=case.get("trace"))
+    info = {"classes": [case["api"], "concurrent"], "nontrivial": r.switches >= 1}
+    for sim in r.out.sims:
+        if sim.framing_error is not None:
+            return Violation("host-stream-undecodable", "%d concurrent operations, %d scheduler switches: %s" % (len(case["ops"]), r.switches, sim.framing_error)), info
+    info["sample"] = {"ops": [o["op"] for o in case["ops"]], "switches": r.switches, "steps": r.steps, "host_packets": sum(len(s_.host_log) for s_ in r.out.sims), "api": case["api"]}
+    return None, info
+
+
 def big_cases():
     """>= 16.9 MiB of 0xFF: the byte sum passes 2^32 (checksum wrap)."""
     n = 2 ** 32 // 255 + 4096
@@ -113,6 +125,8 @@ def big_cases():
 
 
 def replay(part, case):
+    if part == "concurrent":
+        return check_concurrent(case)[0]
     return (check_direct if part == "direct" else check_stream)(case)[0]
 
 
@@ -123,6 +137,8 @@ def run(tier, seed):
     col.merge(harness.corpus_part(ID, "stream", check_stream))
     col.merge(harness.hypothesis_part("direct", direct_cases(), check_direct, 8000 if quick else 200000, seed, shrink=not quick))
     col.merge(harness.hypothesis_part("stream", stream_cases(), check_stream, 2500 if quick else 60000, seed, shrink=not quick))
+    from . import c06
+    col.merge(harness.hypothesis_part("concurrent", c06.workloads(), check_concurrent, 2500 if quick else 60000, seed, shrink=not quick))
     if not quick:
         col.merge(harness.enumeration_part("direct", lambda sh, n: [c for i, c in enumerate(big_cases()) if i % n == sh], check_direct,
                                            hash_of=lambda c: {"big": len(c["data"]), "ba": c["as_bytearray"]}))
